@@ -86,7 +86,10 @@ def fold_replies(L, repo):
             L.ob("C05.R1", FC, fn, "%s: exactly one reply, with a negative status and the original arguments" % title,
                  "RSP RXTUNE -<n> abc\\0", repr(got), ok, fd.lineno)
         else:
-            L.ob("C05.R1", FC, fn, "%s: datagrams sent in reply (exact text)" % title, repr(want), repr(got), got == want, fd.lineno)
+            nsent = len(got) if isinstance(got, list) else got
+            L.ob("C05.R1", FC, fn, "%s: number of datagrams sent in reply" % title, len(want), nsent, nsent == len(want), fd.lineno)
+            if nsent == len(want):
+                L.ob("C05.R2", FC, fn, "%s: reply text" % title, repr(want), repr(got), got == want, fd.lineno)
         if isinstance(sent, list):
             for x in sent:
                 L.ob("C05.R2", FC, fn, "%s: the reply goes to the sender's address" % title, PEER,
